@@ -956,6 +956,7 @@ func runC16(r *Run) {
 	c16Constructor(r)
 	c16Buffered(r)
 	c09FileWriterDirect(r, true)
+	c16RichEncoder(r)
 }
 
 // c16Buffered: the writer handed to the encoder is itself a buffering writer with a Flush
